@@ -1,17 +1,17 @@
-(* C01, not a property obligation: statements the faithful model of the UNCHANGED code violates.
+(* C01, not a property obligation: a statement the model of the code BEFORE commit 1bb148f violates
+   (genuine defect found by this check, now repaired in /repo; known_findings.json: fixed).
 
    DocChanged (db/change_cache.go) reconstructs, for a mutation the caching feed deduplicated, a
-   removal LogEntry with DocID, RevID and Channels only; when the deduplicated revision was a
-   DELETION (channels[ch] = {seq, rev, del: true}) the entry lacks the Deleted flag that the channel
-   query returns for the same removal (rDel).  A warm channel cache therefore answers
-   {seq, id, removed:[ch]} where a cold one answers {seq, id, deleted:true, removed:[ch]}: the
-   answer depends on the cache state.  Reproduced on the real database by the harness (monitor
-   dedup_reconstruction, signature deduplicated-deletion-removal-lacks-deleted-flag).
-   Minimal repair: in the reconstruction branch, set change.Flags |= channels.Deleted when the
-   removals at that sequence carry Deleted. *)
+   removal LogEntry with DocID, RevID and Channels; before the repair it never set the Deleted flag,
+   so when the deduplicated revision was a DELETION (channels[ch] = {seq, rev, del: true}) a warm
+   channel cache answered {seq, id, removed:[ch]} where a cold one (channel query, rDel) answered
+   {seq, id, deleted:true, removed:[ch]}.  The witness below is evaluated on the old-code instance of
+   the model (doc_changed_gen false); the repaired instance satisfies the statement
+   (C01_dedup_removal_is_query_entry).  The harness monitor dedup_reconstruction, signature
+   deduplicated-deletion-removal-lacks-deleted-flag, fires on trees without the repair. *)
 From SG Require Import Base.Prelude C01.ChanCache C01.Notify C01.Dedup.
 Open Scope N_scope.
 
-Theorem C01_dedup_removal_is_query_entry_refuted : ~ dedup_removal_is_query_entry_full_statement.
+Theorem C01_dedup_removal_is_query_entry_refuted : ~ removal_is_query_entry_statement false.
 Proof. exact dedup_removal_is_query_entry_refuted. Qed.
 Print Assumptions C01_dedup_removal_is_query_entry_refuted.
